@@ -9,6 +9,8 @@
 import Emu.Proofs.Ranges
 import Emu.Bt.Server
 import Emu.Proofs.LeafTie.KeysOutOfRange
+import Emu.Proofs.Chunks
+import Emu.Proofs.Sample
 
 namespace Emu.Props.C03
 open Emu Emu.Bt Emu.Proofs.BtRows Emu.Proofs.Ranges
@@ -96,6 +98,83 @@ example :
     let rows : Rows := [⟨[97], []⟩, ⟨[97, 0], []⟩, ⟨[97, 98], []⟩, ⟨[98], []⟩]
     (scanVisit (scanRanges [[98]] [⟨.opened [97], .closed [97, 98]⟩, ⟨.closed [97, 0], .opened [98]⟩]) rows).map (·.key)
       = [[97, 0], [97, 98], [98]] := by decide
+
+/-! ### The chunk stream
+
+`rowChunks` is `chunkBuilder.add`, `messages` the batching of `ReadRows`, `decode` the state machine
+every client runs on the stream (it refuses a chunk that belongs to no row, a row that does not start
+with key, family and qualifier, a second key before the commit, a family name without qualifier, a
+stream whose last row is not committed). -/
+
+/-- **Well-formedness and round trip.**  For any rows (row keys are never empty) the stream the
+    encoder produces is accepted by the decoder — each row starts with its key, family and
+    qualifier, ends with exactly one commit, no chunk belongs to no row — and decodes to exactly
+    the rows that have cells, each with its cells in order under their family and qualifier. -/
+theorem chunk_stream_decodes_to_the_rows (rs : List Row) (hk : ∀ r ∈ rs, r.key ≠ []) :
+    decode (rs.flatMap rowChunks) = some (Emu.Proofs.Chunks.nonEmptyRows rs) :=
+  Emu.Proofs.Chunks.decode_encode rs hk
+
+/-- The response messages together are that stream, none of them is empty, and none exceeds the
+    batch size by more than one row's chunks. -/
+theorem messages_carry_the_stream (rs : List Row) :
+    (messages rs).flatten = rs.flatMap rowChunks ∧
+    (∀ m ∈ messages rs, m ≠ []) ∧
+    (∀ m ∈ messages rs, ∃ r, m.length ≤ Emu.Generated.chunkBatch + (rowChunks r).length) := by
+  refine ⟨?_, ?_, ?_⟩
+  · have := Emu.Proofs.Chunks.messagesFrom_flatten Emu.Generated.chunkBatch rs []
+    simpa [messages] using this
+  · exact Emu.Proofs.Chunks.messagesFrom_nonempty _ rs []
+  · exact Emu.Proofs.Chunks.messagesFrom_bounded _ rs [] (by simp)
+
+/-- What a client decodes from the messages of a scan is the scan's rows. -/
+theorem client_decodes_the_scan (rs : List Row) (hk : ∀ r ∈ rs, r.key ≠ []) :
+    decode (messages rs).flatten = some (Emu.Proofs.Chunks.nonEmptyRows rs) := by
+  rw [(messages_carry_the_stream rs).1]; exact chunk_stream_decodes_to_the_rows rs hk
+
+example : decode (rowChunks ⟨[107], [⟨[102], [⟨[113], [⟨2, [1], []⟩, ⟨1, [2], []⟩]⟩]⟩, ⟨[103], [⟨[114], [⟨5, [], []⟩]⟩]⟩]⟩)
+    = some [([107], [([102], [113], ⟨2, [1], []⟩), ([102], [113], ⟨1, [2], []⟩), ([103], [114], ⟨5, [], []⟩)])] := by rfl
+
+/-! ### SampleRowKeys
+
+`sampleRowKeys rows coins` is the loop of `SampleRowKeys` with the outcomes of its random draws as
+a parameter; the statements hold for EVERY sequence of draws. -/
+
+/-- The answer's keys are a subsequence of the stored keys — so, the store being strictly
+    ascending, strictly ascending themselves. -/
+theorem sample_is_an_ascending_subsequence (rows : Rows) (hs : Sorted rows) (coins : List Bool) :
+    ((sampleRowKeys rows coins).map (·.1)).Sublist (rows.map (·.key)) ∧
+    ((sampleRowKeys rows coins).map (·.1)).Pairwise (· < ·) := by
+  have h := Emu.Proofs.Sample.keys_sublist rows coins 0 none
+  simp only [Option.toList_none, List.map_nil, List.nil_append] at h
+  refine ⟨h, List.Pairwise.sublist h ?_⟩
+  exact List.pairwise_map.mpr hs
+
+/-- A non-empty table's answer ends with the last stored key; an empty table's answer is empty. -/
+theorem sample_ends_with_the_last_key (rows : Rows) (coins : List Bool) :
+    ((sampleRowKeys rows coins).getLast?.map (·.1)) = rows.getLast?.map (·.key) := by
+  have h := Emu.Proofs.Sample.last_key rows coins 0 none
+  unfold sampleRowKeys
+  rw [h]
+  cases rows.getLast? <;> rfl
+
+/-- Offsets never decrease. -/
+theorem sample_offsets_do_not_decrease (rows : Rows) (coins : List Bool) :
+    (sampleRowKeys rows coins).Pairwise (fun a b => a.2 ≤ b.2) :=
+  (Emu.Proofs.Sample.offsets rows coins 0 none (by simp)).1
+
+/-- The relation the correspondence check holds the implementation's answers to (`sampleExplained`,
+    evaluated by the Lean driver on every answer seen) accepts exactly the answers of the loop:
+    each accepted answer is the loop's answer for some draws, and every answer of the loop on a
+    table (distinct keys) is accepted. -/
+theorem sample_judge_is_exact (rows : Rows) (hs : Sorted rows) :
+    (∀ out, sampleExplained rows out = true → ∃ coins, sampleRowKeys rows coins = out) ∧
+    (∀ coins, sampleExplained rows (sampleRowKeys rows coins) = true) := by
+  refine ⟨fun out h => Emu.Proofs.Sample.explained_sound rows out h, fun coins => ?_⟩
+  apply Emu.Proofs.Sample.explained_complete rows coins
+  exact hs.imp (fun h => by intro e; rw [e] at h; exact absurd h (List.lt_irrefl _))
+
+example : sampleRowKeys [⟨[97], [⟨[102], [⟨[113], [⟨1, [1, 2, 3], []⟩]⟩]⟩]⟩, ⟨[98], []⟩, ⟨[99], []⟩] [true, false, false]
+    = [([97], 0), ([99], 3)] := by decide
 
 /-! ### Tie T1: the repository's own text of the inverted-range test
 
